@@ -45,7 +45,7 @@ ASSUMPTIONS = [
     "cancellers that raise, and cancel() from inside the function itself, are outside the alphabet",
 ]
 MIN = {"quick": {"evaluations": 700000, "nontrivial": 650000, "outcomes": 7},
-       "thorough": {"evaluations": 15000000, "nontrivial": 14000000, "outcomes": 7}}
+       "thorough": {"evaluations": 12000000, "nontrivial": 11000000, "outcomes": 7}}
 
 NSHARDS = 64
 CANC = ("none", "noop", "value", "fail")
